@@ -85,10 +85,47 @@ func build(c Case, viol *violations) (*built, error) {
 	}
 	b.pool = map[string]any{
 		"id": "p", "gun": gun, "ammo": ammo, "result": result,
-		"rps":     map[string]any{"type": "once", "times": c.Shots + 5},
-		"startup": map[string]any{"type": "once", "times": c.Instances},
+		"rps":     rpsConf(c),
+		"startup": startupConf(c),
 	}
 	return b, nil
+}
+
+func sectionConfs(secs []Section) []any {
+	var out []any
+	for _, s := range secs {
+		switch s.Type {
+		case "once":
+			out = append(out, map[string]any{"type": "once", "times": s.Tokens})
+		case "const":
+			out = append(out, map[string]any{"type": "const", "ops": constOps(s.Tokens, s.DurMs), "duration": fmt.Sprintf("%dms", s.DurMs)})
+		case "unlimited":
+			out = append(out, map[string]any{"type": "unlimited", "duration": fmt.Sprintf("%dms", s.DurMs)})
+		}
+	}
+	return out
+}
+
+// rpsConf: the schedule all instances share (the pool has no rps-per-instance).
+func rpsConf(c Case) any {
+	if len(c.Rps) == 0 {
+		return map[string]any{"type": "once", "times": c.Shots + 5}
+	}
+	if c.RpsNested {
+		return map[string]any{"type": "composite", "nested": sectionConfs(c.Rps)}
+	}
+	return sectionConfs(c.Rps)
+}
+
+func startupConf(c Case) any {
+	st := c.Startup
+	switch {
+	case st == nil:
+		return map[string]any{"type": "once", "times": c.Instances}
+	case st.Kind == "instance_step":
+		return map[string]any{"type": "instance_step", "from": st.From, "to": c.Instances, "step": st.Step, "stepduration": fmt.Sprintf("%dms", st.StepMs)}
+	}
+	return sectionConfs(st.Sections)
 }
 
 func think(c Case) {
